@@ -117,8 +117,24 @@ Definition is_space (c : N) : bool :=
 (* persistable: no '#' (as the source spells it) and no white space *)
 (* '#': tied to the source through the translated function (Gen.C18.go_persistable, gen_persistable) *)
 Definition persist_comment_char : N := 35.
-Definition persistable (key : str) : bool :=
+Definition persistable_ascii (key : str) : bool :=
   forallb (fun c => negb (c =? persist_comment_char) && negb (is_space c)) key.
+(* unicode.IsSpace outside ASCII, as the UTF-8 octets of the runes: U+0085, U+00A0, U+1680,
+   U+2000..U+200A, U+2028, U+2029, U+202F, U+205F, U+3000.  strings.IndexFunc decodes runes;
+   on octets that is a substring search: each sequence starts with a lead octet (194, 225,
+   226, 227), which the decoder never takes for a continuation octet, so a match of the whole
+   sequence starts a rune, and decodes to that rune (also in ill-formed input). *)
+Definition uspace_seqs : list str :=
+  [[194; 133]; [194; 160]; [225; 154; 128];
+   [226; 128; 128]; [226; 128; 129]; [226; 128; 130]; [226; 128; 131]; [226; 128; 132]; [226; 128; 133];
+   [226; 128; 134]; [226; 128; 135]; [226; 128; 136]; [226; 128; 137]; [226; 128; 138];
+   [226; 128; 168]; [226; 128; 169]; [226; 128; 175]; [226; 129; 159]; [227; 128; 128]].
+Fixpoint has_uspace (s : str) : bool :=
+  match s with
+  | [] => false
+  | _ :: r => existsb (fun p => has_prefix p s) uspace_seqs || has_uspace r
+  end.
+Definition persistable (key : str) : bool := persistable_ascii key && negb (has_uspace key).
 
 (* setLocked *)
 Definition set_locked (key0 : str) (b : bl) : bool * bl :=
